@@ -44,7 +44,7 @@ type Scenario struct {
 
 type Engine struct{}
 
-var entries = []string{"write", "write", "parse", "parsestring", "reader", "decoder-reader", "decoder-bytes", "mixed", "mixed"}
+var entries = []string{"write", "write", "parse", "parse-reused-buffer", "parsestring", "reader", "decoder-reader", "decoder-bytes", "mixed", "mixed"}
 
 func scribble(b []byte) {
 	for i := range b {
@@ -241,7 +241,7 @@ func unfoldAlias(c *simkit.Choices, x *simkit.Ctx) *simkit.Violation {
 			Write([]byte) (int, error)
 		}
 		var dec common.Decoder
-		var stream []byte
+		var stream, callerBuf []byte
 		for _, d := range docs {
 			stream = append(stream, d...)
 		}
@@ -274,6 +274,23 @@ func unfoldAlias(c *simkit.Choices, x *simkit.Ctx) *simkit.Violation {
 				buf := simkit.Exact(d)
 				runErr = cd.Parse(buf, tap)
 				scribble(buf)
+			case "parse-reused-buffer":
+				// the caller reads record after record into ONE buffer: the next
+				// document lands on the addresses of the previous one
+				if callerBuf == nil {
+					m := 0
+					for _, dd := range docs {
+						if len(dd) > m {
+							m = len(dd)
+						}
+					}
+					callerBuf = make([]byte, m)
+				}
+				n := copy(callerBuf, d)
+				runErr = cd.Parse(callerBuf[:n:n], tap)
+				if i == len(docs)-1 {
+					scribble(callerBuf)
+				}
 			case "parsestring":
 				// strings are immutable: the input cannot be scribbled, but
 				// the parser's internal buffers are still reused
@@ -342,6 +359,8 @@ func unfoldAlias(c *simkit.Choices, x *simkit.Ctx) *simkit.Violation {
 			st.Fault("chunk-buffer-scribbled-after-write")
 		case "parse", "reader", "decoder-bytes":
 			st.Fault("input-scribbled-after-call")
+		case "parse-reused-buffer":
+			st.Fault("input-buffer-overwritten-by-next-document")
 		case "decoder-reader":
 			st.Fault("reader-buffer-reused")
 		default:
